@@ -1,0 +1,48 @@
+# -*- coding: utf-8 -*-
+"""
+pytableaux._verif
+^^^^^^^^^^^^^^^^^
+
+Verification hooks. Inert unless the environment variable
+``PYTABLEAUX_VERIF=1`` is set when the package is imported.
+
+With the guard on:
+
+- tableau nodes and branches hash to a per-process sequence number that is
+  stored on the object the first time it is hashed, mixed with the integer
+  ``PYTABLEAUX_VERIF_ORDER`` (0 = creation order). This makes the iteration
+  order of hash-based node sets a function of the inputs, so a run can be
+  replayed exactly in a fresh process.
+- ``Rule.target()`` passes its candidate targets through ``scheduler``, if a
+  harness has set one, before ranking them.
+
+With the guard off nothing here is used.
+"""
+from __future__ import annotations
+
+import os
+
+ENABLED = os.environ.get('PYTABLEAUX_VERIF') == '1'
+
+order = int(os.environ.get('PYTABLEAUX_VERIF_ORDER') or 0)
+"Seed mixed into the node/branch hash. 0 means plain creation order."
+
+scheduler = None
+"Optional callable ``(rule, branch, targets) -> targets`` set by a harness."
+
+_seq = 0
+
+def reset(neworder = None, /):
+    "Restart the sequence numbering (and optionally set the order seed)."
+    global _seq, order
+    _seq = 0
+    if neworder is not None:
+        order = int(neworder)
+
+def next_hash() -> int:
+    "The hash for the next newly hashed node or branch."
+    global _seq
+    _seq += 1
+    if order:
+        return hash((order, _seq))
+    return _seq
